@@ -1,14 +1,14 @@
 SPECIFICATION Spec
 CONSTANTS
   Dirs <- MCDirs
-  TypeEncs <- QuickTypeEncs
-  Maxes <- QuickMaxes
-  Methods <- QuickMethods
+  TypeEncs <- MeshTypeEncs
+  Maxes <- OneMax
+  Methods <- OneMethod
   Shardings <- FullShardings
-  Codes <- QuickCodes
-  MeshDirs <- NoMesh
-  MeshNames <- NoMesh
-  Tables <- NoMesh
+  Codes <- NoCodes
+  MeshDirs <- MeshDirs2
+  MeshNames <- MeshNames1
+  Tables <- Tables1
   MeshRewritesInfo = "keepAll"
   CfgSpace <- QuickCfg
   MaxLen = 6
@@ -20,3 +20,6 @@ INVARIANT RepeatIsNoop
 INVARIANT SuccessMeansComplete
 INVARIANT SourceUntouched
 INVARIANT ConvertPreserves
+INVARIANT InfoScalesPreserved
+INVARIANT MeshKeyStable
+INVARIANT LinksNeedKey
